@@ -103,7 +103,10 @@ def inject(model, site, rng):
         del c["args"][p]
         exp.update(error="MissingParameters", where="cmd", attrs={"parameters": [p], "command": c["cmd"]})
     elif kind == "undeclared-param":
-        c["args"][p] = 1
+        # anywhere among the arguments, not only last
+        items = list(c["args"].items())
+        items.insert(rng.randrange(len(items) + 1), (p, 1))
+        c["args"] = dict(items)
         exp.update(error="NoSuchParameter", where="arg", attrs={"parameter": p, "command": c["cmd"]})
     elif kind == "miscased-required-param":
         # the required parameter is given under a name of other capitalisation: it is missing (and the other name undeclared)
